@@ -11,6 +11,7 @@ CSIM_PROPS = {"C01", "C02", "C04", "C12", "C15", "C16"}
 ENGINES = {
     "csim": dict(pkg="./sims/csim", bin="csim.test", test="^TestWorker$"),
     "valsetsim": dict(pkg="./sims/valsetsim", bin="valsetsim.test", test="^TestWorker$"),
+    "signersim": dict(pkg="./sims/signersim", bin="signersim.test", test="^TestWorker$"),
 }
 
 # property: list of parts (engine, quick_runs, share of the thorough time budget); thorough budget in seconds
@@ -23,15 +24,18 @@ PARTS = {
     "C15": [("csim", 280, 1.0)],
     "C16": [("csim", 200, 0.7), ("valsetsim", 4000, 0.3)],
     "C07": [("csim", 280, 1.0)],
+    "C03": [("signersim", 1200, 0.5), ("csim", 120, 0.5)],
 }
 
 REAL = {
+    "signersim": ["gemmill/types PrivValidator (SignVote, SignProposal, signBytesHRS, save, LoadPrivValidator)", "go-common WriteFileAtomic on a real file", "go-wire JSON of the signer file"],
     "valsetsim": ["gemmill/types ValidatorSet/Validator (IncrementAccum, Copy, Add/Update/Remove, Proposer, Hash)", "go-wire binary persistence round trip", "go-common heap"],
     "csim": ["gemmill/consensus/pbft (state machine, reactor Receive, WAL, replay, real timeout ticker behind a gate, height vote set)",
              "gemmill/types (vote sets, part sets, validator sets, blocks, signer file)", "gemmill/state (ExecBlock/ApplyBlock/Save)",
              "gemmill/blockchain store", "gemmill/mempool", "go-wire, go-merkle, go-autofile (real files), go-events"],
 }
 STUB = {
+    "signersim": ["no node, no clock, no goroutines: the signer is driven directly; process death = panic out of the fault point before a file operation, everything written before it stays"],
     "valsetsim": ["no node, no clock: replicas are validator-set objects driven through one history by different paths"],
     "csim": ["LevelDB -> simdisk ordered map with write counter (crash = process death before write k)",
              "p2p transport and the three gossip routines -> harness delivers any artefact any honest node holds (over-approximation)",
@@ -157,8 +161,15 @@ def write_evidence(prop, tier, seed, level, results, wall, violations, rule, ext
     nontriv = set()
     states = set()
     samples = []
+    cases = 0
+    dcases = 0
+    seen_tr = set()
     for r in results:
+        cases += r.get("cases") or 1
         if r.get("nontrivial"):
+            if r.get("trace_hash") not in seen_tr:
+                dcases += r.get("distinct_cases") or 1
+            seen_tr.add(r.get("trace_hash"))
             nontriv.add(r.get("trace_hash"))
         for s in r.get("states") or []:
             states.add(s)
@@ -168,8 +179,9 @@ def write_evidence(prop, tier, seed, level, results, wall, violations, rule, ext
         samples = [{"note": "no run completed"}]
     sim = sum(r.get("sim_seconds", 0) for r in results)
     cov = dict(
-        evaluations=len(results),
-        distinct_nontrivial=len(nontriv),
+        evaluations=cases,
+        distinct_nontrivial=dcases,
+        runs=len(results),
         rule=rule,
         samples=samples,
         runs_per_hour=int(len(results) / wall * 3600) if wall > 0 else 0,
@@ -320,7 +332,7 @@ def check(prop, tier, seed):
 
 
 ASSUME = {}
-LEVEL = {"C07": "fault_enumeration"}
+LEVEL = {"C07": "fault_enumeration", "C03": "fault_enumeration"}
 
 
 def setup():
